@@ -48,6 +48,10 @@ def interp_factory():
     it.frames = []
     it.transparent_only = None
     it.assign_hooks = {}
+    it.native_hooks = {}          # abstractions installed by one unit never leak into the next
+    it.opaque_hooks = {}
+    it.private_rng = None
+    it.reset_static_state()       # module / class level containers and memo stores back to their state after import
     from pyvc import ctx as _ctx
     _ctx.INTERP = it
     return it
